@@ -1,6 +1,7 @@
 """R24 HELPERS — pairing clauses of the bulk connection helpers in mosaik.util."""
 from __future__ import annotations
 
+import ast
 from typing import List, Optional
 
 from .base import *  # noqa: F401,F403
@@ -9,7 +10,7 @@ M2O = "mosaik.util.connect_many_to_one"
 EVENLY = "mosaik.util._connect_evenly"
 RANDOMLY = "mosaik.util._connect_randomly"
 FRONT = "mosaik.util.connect_randomly"
-MIN_INSTANCES = 7
+MIN_INSTANCES = 8
 
 
 def run(ctx: Ctx) -> Collector:
@@ -21,6 +22,7 @@ def run(ctx: Ctx) -> Collector:
     _chunking(ctx, c)
     _capacity(ctx, c)
     _front(ctx, c)
+    _entity_identity(ctx, c)
     return c
 
 
@@ -249,3 +251,77 @@ def _front(ctx: Ctx, c: Collector) -> None:
 
 from ..report import VIOLATED, DISCHARGED  # noqa: E402
 from ..terms import call  # noqa: E402
+
+
+# --------------------------------------------------------------------------- entity identity
+ENTITY = "mosaik.scenario.Entity"
+
+
+def _entity_identity(ctx: Ctx, c: Collector) -> None:
+    """The helpers keep destinations in a set, count them in a dict and `remove` them from a
+    list: all three identify entities by ==/hash.  Distinct entities must therefore never compare
+    equal: Entity compares by identity, or by a key containing its unique id (the fields
+    `full_id` is built from)."""
+    from .sites import function_sites, typer_of
+    from ..types import is_cls
+    prog = ctx.prog
+    typer = typer_of(prog)
+    uses = []
+    for qn in (EVENLY, RANDOMLY):
+        fi = ctx.func(qn)
+        for e, sub, env in function_sites(prog, fi):
+            if sub[0] == "call" and sub[1][0] == "attr" and sub[1][2] in ("add", "remove", "get", "discard", "index", "count", "setdefault", "pop") and sub[2]:
+                if is_cls(typer._type_of(sub[2][0], env), ENTITY):
+                    uses.append((fi, e, T.show(sub)))
+            elif sub[0] == "idx":
+                bt = typer.unopt(typer._type_of(sub[1], env))
+                if bt[0] == "dict" and is_cls(bt[1], ENTITY):
+                    uses.append((fi, e, T.show(sub)))
+            elif sub[0] == "cmp" and sub[1] in ("in", "notin", "==", "!="):
+                if is_cls(typer._type_of(sub[2], env), ENTITY):
+                    uses.append((fi, e, T.show(sub)))
+    c.info["entity_equality_uses"] = len(uses)
+    if len(uses) < 3:
+        raise AnalysisError(f"R24: only {len(uses)} equality-based uses of Entity values found in the helpers (set add, dict count, list remove confirmed by hand)")
+    ci = prog.cls(ENTITY)
+    fid = prog.find_method(ENTITY, "full_id")
+    unique = set()
+    if fid is not None:
+        rv = folded_return(summarise(prog, fid))
+        unique = T.fields_of((rv,), T.var(fid.params[0])) if rv is not None else set()
+    if not unique:
+        raise AnalysisError("R24: Entity.full_id (the unique id of an entity) not found")
+    decs = [ast.unparse(d).replace(" ", "") for d in ci.decorators]
+    eq = prog.find_method(ENTITY, "__eq__")
+    hs = prog.find_method(ENTITY, "__hash__")
+    label = "distinct entities are distinct set members / dict keys"
+    pr: List[str] = []
+    how = "Entity compares and hashes by identity"
+    dc = [d for d in decs if d.split("(")[0].split(".")[-1] == "dataclass"]
+    if eq is None and dc and "eq=False" not in dc[0]:
+        if not ("frozen=True" in dc[0] or "unsafe_hash=True" in dc[0]) and hs is None:
+            pr.append(f"@{dc[0]} generates __eq__ and sets __hash__ to None: entities cannot be put into the helpers' set / dict")
+        how = "field-wise dataclass equality includes the unique id"
+    elif eq is not None:
+        s = summarise(prog, eq)
+        me = T.var(eq.params[0])
+        rv = folded_return(s)
+        key = T.fields_of((rv,), me) if rv is not None else set()
+        ident = rv is not None and any(x[0] == "cmp" and x[1] in ("is", "isnot") and me in (x[2], x[3]) for x in T.subterms((rv,)))
+        if ident and not key:
+            how = "__eq__ is identity"
+        elif not (unique <= key or "full_id" in key):
+            pr.append(f"Entity.__eq__ compares {sorted(key) or 'nothing of self'}, which does not contain the unique id {sorted(unique)}: "
+                      "distinct entities (same eid in two simulator instances) compare equal, so the returned set, the per-destination counters and dest_set.remove() confuse them")
+        else:
+            how = f"__eq__ compares a key containing the unique id {sorted(unique)}"
+        if hs is None:
+            own_hash = any(isinstance(n, ast.Assign) and any(isinstance(t, ast.Name) and t.id == "__hash__" for t in n.targets) for n in ci.node.body)
+            if not own_hash:
+                pr.append("Entity defines __eq__ without __hash__: instances are unhashable, the helpers' set / dict raise TypeError")
+        elif hs is not None:
+            hv = folded_return(summarise(prog, hs))
+            hkey = T.fields_of((hv,), T.var(hs.params[0])) if hv is not None else set()
+            if key and hkey and not hkey <= key and "full_id" not in key:
+                pr.append(f"__hash__ uses {sorted(hkey - key)} which __eq__ ignores: equal entities can hash differently")
+    c.add("identity", ENTITY, label, VIOLATED if pr else DISCHARGED, "; ".join(pr) if pr else f"{how}; {len(uses)} equality-based uses in the helpers", f"{ci.module.relpath}:{ci.node.lineno}" if hasattr(ci.module, "relpath") else "")
